@@ -148,8 +148,45 @@ class StrMonoid:
         return f"StrMonoid({self.s!r})"
 
 
+class MutMat:
+    """2x2 integer matrices as *mutable* objects: ``a * b`` builds a new one, ``a *= b``
+    changes ``a`` in place (like numpy.matrix).  integer_power must neither alias its
+    accumulator with the running square nor change the caller's argument."""
+
+    def __init__(self, m):
+        self.m = [list(r) for r in m]
+
+    def _prod(self, o):
+        return [[sum(self.m[i][k] * o.m[k][j] for k in range(2)) for j in range(2)]
+                for i in range(2)]
+
+    def __mul__(self, o):
+        if not isinstance(o, MutMat):
+            return NotImplemented
+        return MutMat(self._prod(o))
+
+    def __imul__(self, o):
+        if not isinstance(o, MutMat):
+            return NotImplemented
+        self.m[:] = self._prod(o)
+        return self
+
+    def __eq__(self, o):
+        return isinstance(o, MutMat) and self.m == o.m
+
+    __hash__ = None
+
+    def __repr__(self):
+        return f"MutMat({self.m})"
+
+
 def _ipow_operands(spec):
     dom, x = spec.get("dom"), spec.get("x")
+    if dom == "mutmat":
+        _need(isinstance(x, list) and len(x) == 2 and all(
+            isinstance(r, list) and len(r) == 2 and all(map(_is_int, r)) for r in x),
+            "ipow mutmat")
+        return MutMat(x), MutMat(((1, 0), (0, 1)))
     if dom == "int":
         _need(_is_int(x), "ipow int")
         return x, 1
@@ -173,7 +210,7 @@ def check_ipow(spec):
     n = spec.get("n")
     _need(_is_int(n) and n <= 5000, "ipow n")
     x, one = _ipow_operands(spec)
-    explicit_one = bool(spec.get("one")) or spec["dom"] == "str"
+    explicit_one = bool(spec.get("one")) or spec["dom"] in ("str", "mutmat")
     call = (lambda: integer_power(x, n, one)) if explicit_one \
         else (lambda: integer_power(x, n))
     res.label("ipow:" + spec["dom"])
@@ -192,10 +229,15 @@ def check_ipow(spec):
     want = one
     for _ in range(n):
         want = want * x
+    x_before = repr(x)
     try:
         got = call()
     except Exception as e:
         return res.fail(f"ipow:raises:{_exc(e)}", f"integer_power({_short(x)}, {n}): {e}")
+    if repr(x) != x_before:
+        res.fail("ipow:argument-changed",
+                 f"integer_power changed its argument {x_before} into {_short(x)} (n={n})")
+        x, _ = _ipow_operands(spec)
     if not (got == want):
         res.fail("ipow:value", f"integer_power({_short(x)}, {n}) = {_short(got)}, "
                  f"repeated multiplication gives {_short(want)}")
